@@ -30,7 +30,7 @@ if wave and wave >= '4':
     for d in sorted(glob.glob('/verif/seeded/%s_*' % pid)):
         try:
             m = json.load(open(os.path.join(d, 'meta.json')))
-            prev.append('  - ' + ' '.join((m.get('summary') or '').split())[:260])
+            prev.append('  - ' + ' '.join((m.get('summary') or '').split())[:260].replace('{', '{{').replace('}', '}}'))
         except Exception:
             pass
     if prev:
